@@ -60,7 +60,12 @@ def gen_plan(rng, tier, i):
         else:
             ks = [nwin - 1]
         for k in ks:
-            drop.append({"side": rng.choice(["ref", "est"]), "src": rng.randrange(nsrc), "win": k})
+            d = {"side": rng.choice(["ref", "est"]), "src": rng.randrange(nsrc), "win": k}
+            if rng.random() < 0.3:
+                # near-silent: everything in the window is zero except ONE sample (first / last / inside):
+                # the window is NOT silent and must be scored like any other
+                d["keep"] = rng.choice([0, 0, window - 1, rng.randrange(window)])
+            drop.append(d)
     poisons = rng.sample(seams.POISONS, 2)
     return {
         "prop": PROP, "nsrc": nsrc, "nchan": nchan, "nsampl": nsampl, "window": window, "hop": hop, "nwin_planned": nwin,
@@ -90,7 +95,13 @@ def build_signals(plan):
         est = ref + 0.5 * g.randn(nsrc, nsampl, nchan)
     for d in plan["drop"]:
         a, b = d["win"] * plan["hop"], d["win"] * plan["hop"] + plan["window"]
-        (ref if d["side"] == "ref" else est)[d["src"], a:b, :] = 0.0
+        arr = ref if d["side"] == "ref" else est
+        keep = None
+        if d.get("keep") is not None and a + d["keep"] < arr.shape[1]:
+            keep = (a + d["keep"], arr[d["src"], a + d["keep"], :].copy())
+        arr[d["src"], a:b, :] = 0.0
+        if keep is not None:
+            arr[d["src"], keep[0], :] = keep[1] if np.all(keep[1] != 0) else 1.0
     ref = np.ascontiguousarray(ref)
     est = np.ascontiguousarray(est)
     return ref[:, :, 0].copy(), est[:, :, 0].copy(), ref, est
@@ -234,6 +245,8 @@ def execute(plan, want_logs=False):
             if exp[0] != "ok":
                 stats.inc("model_raised")
                 continue
+            if any(d.get("keep") is not None and d["win"] == k for d in plan["drop"]):
+                stats.inc("probe.near_silent_window_scored")
             for name, got, want in zip(names, res, exp[1]):
                 g = np.asarray(got)
                 col = g[:, k] if g.ndim == 2 and g.shape[1] > k else None
